@@ -7,7 +7,7 @@ the real ai/vector store (filesystem backend, in-memory L2 cache) under every us
 transaction policy; after each mutating call the driver reads Get on every id and Query on every probe, and TLC
 validates the complete call log against VectorStoreTrace (code -> spec).  Seeded random long programs (more ids, all
 six vectors) are validated the same way.  The spec is the only oracle."""
-import concurrent.futures, hashlib, json, os, re
+import concurrent.futures, hashlib, json, os, re, time
 import vlib
 
 META = dict(
@@ -92,8 +92,9 @@ def select(behs, n, seed):
 
 
 NEEDS = dict(Setup=("usage", "buf"), Upsert=("id", "v", "p", "ok"), UpsertBatch=("items", "ok"), Delete=("id", "ok"),
-             Optimize=("ok",), Get=("id", "ok", "v", "p"), Query=("q", "k", "f", "ok", "hits"), CommitFailed=())
-DEFAULT = dict(usage=0, buf=0, id=0, v=0, p=0, items=[], q=0, k=0, f=0, hits=[], ok=False)
+             Optimize=("ok",), Get=("id", "ok", "v", "p"), Query=("q", "k", "f", "ok", "hits"), CommitFailed=(),
+             Inspect=("ver", "content", "idx", "tmp"))
+DEFAULT = dict(usage=0, buf=0, id=0, v=0, p=0, items=[], q=0, k=0, f=0, hits=[], ok=False, ver=0, content=[], idx=[], tmp=[])
 
 
 def norm(e):
@@ -106,6 +107,9 @@ def norm(e):
         o["hits"] = [[h["id"], h["sd"], h["p"]] for h in (o["hits"] or [])]
     if "items" in o:
         o["items"] = [list(x) for x in (o["items"] or [])]
+    for k in ("content", "idx", "tmp"):
+        if k in o:
+            o[k] = [list(x) for x in (o[k] or [])]
     return o
 
 
@@ -166,7 +170,7 @@ def run(c):
     # ---- 2. programs --------------------------------------------------------------------------------------
     progs = []
     combos = [(0, "each"), (2, "one"), (2, "each"), (0, "one")]
-    nsel = c.pick(160, 1000)
+    nsel = c.pick(160, 700)
     sel = select(behs, nsel, c.seed)
     probe = dict(qs=c.pick([1, 2, 3], [1, 2, 3, 4]), ks=[1, 3], fs=[0, 1, 2])
     for i, b in enumerate(sel):
@@ -175,15 +179,15 @@ def run(c):
             todo = todo + [(1, "each" if i % 2 else "one")]
         for usage, policy in todo:
             progs.append(dict(name="b%d_u%d%s" % (i, usage, policy[0]), usage=usage, buffer=b["buf"], policy=policy,
-                              steps=steps_of(b), **probe))
+                              steps=steps_of(b), inspect=(usage != 1 and b["buf"] != 1), **probe))
     # witnesses of the named deviations and other as-is behaviours (buffer modes 1 and 2)
-    wsel = select(cex_asis, c.pick(24, 400), c.seed) + select(behs_asis, c.pick(12, 200), c.seed + 1)
+    wsel = select(cex_asis, c.pick(24, 240), c.seed) + select(behs_asis, c.pick(12, 120), c.seed + 1)
     for i, b in enumerate(wsel):
         usage, policy = combos[i % 4]
         progs.append(dict(name="w%d_u%d%s" % (i, usage, policy[0]), usage=usage, buffer=b["buf"], policy=policy,
-                          steps=steps_of(b), **probe))
-    gen_main = dict(count=c.pick(8, 120), len=c.pick(25, 60), nids=10, nv=6, np=2, configs=[[0, 0], [2, 0], [2, 2], [0, 2]],
-                    ks=[0, 1, 3, 12], p_optimize=0.1, probe_every=1, probe_sample=8)
+                          steps=steps_of(b), inspect=(b["buf"] != 1), **probe))
+    gen_main = dict(count=c.pick(8, 80), len=c.pick(25, 60), nids=10, nv=6, np=2, configs=[[0, 0], [2, 0], [2, 2], [0, 2]],
+                    ks=[0, 1, 3, 12], p_optimize=0.1, probe_every=1, probe_sample=8, inspect=True)
     gen_side = dict(count=c.pick(6, 40), len=c.pick(20, 40), nids=6, nv=6, np=2, configs=[[1, 0], [2, 1], [1, 2], [0, 1]],
                     ks=[1, 3, 12], p_optimize=0.12, probe_every=1, probe_sample=8)
 
@@ -201,14 +205,17 @@ def run(c):
         bigs += [big("big_u0b0", 0, 0, 450, tail), big("big_u1b0", 1, 0, 450, tail), big("big_u2b2", 2, 2, 450, tail)]
 
     binp = c.build("vectorstore")
-    shards = c.pick(4, 6)
+    shards = c.pick(6, 8)
     plans = []
     for s in range(shards):
         plan = dict(vecs=vecs, nids=3, programs=progs[s::shards])
         plans.append(plan)
     plans.append(dict(vecs=vecs, nids=3, programs=bigs))
-    plans.append(dict(vecs=vecs, nids=3, programs=[], gen=gen_main, prefix="rm"))
-    plans.append(dict(vecs=vecs, nids=3, programs=[], gen=gen_side, prefix="rs"))
+    ng = c.pick(2, 4)
+    for g in range(ng):
+        plans.append(dict(vecs=vecs, nids=3, programs=[], prefix="rm%d_" % g,
+                          gen=dict(gen_main, count=max(1, gen_main["count"] // ng), seed_add=g)))
+    plans.append(dict(vecs=vecs, nids=3, programs=[], gen=dict(gen_side, seed_add=99), prefix="rs"))
 
     def drive(i):
         pf = os.path.join(c.scratch, "plan%d.json" % i)
@@ -217,25 +224,34 @@ def run(c):
         c.run([binp, "run", pf, c.datadir("data%d" % i), of], timeout=c.pick(900, 3000))
         return vlib.split_traces(vlib.read_ndjson(of))
 
-    with concurrent.futures.ThreadPoolExecutor(max_workers=c.pick(4, 6)) as ex:
+    t0 = time.time()
+    with concurrent.futures.ThreadPoolExecutor(max_workers=c.pick(6, 8)) as ex:
         results = list(ex.map(drive, range(len(plans))))
+    vlib.log("drivers: %d plans in %.1fs" % (len(plans), time.time() - t0))
     traces = []
     for part in results:
         traces += part
 
     # ---- 3. code -> spec ------------------------------------------------------------------------------------
     calls = 0
+    whitebox = {}
     items = []       # (name, cls, normalised events, raw events)
     distinct = set()
     for name, evs in traces:
         for e in evs:
             if e["ev"] == "DriverError":
                 raise vlib.InfraError("driver could not run program %s: %s" % (name, e.get("err")))
-        nevs = []
+        nevs, wb = [], []
         for e in evs:
             n = norm(e)
+            if e["ev"] == "Inspect":
+                wb.append(n)          # white-box dump: kept out of the verdict traces
+                continue
             n["_raw"] = e
             nevs.append(n)
+            wb.append({k: v for k, v in n.items() if k != "_raw"})
+        if len(wb) > len(nevs):
+            whitebox[name] = wb
         calls += len(nevs)
         setup = nevs[0]
         cl = cls_of(setup["usage"], setup["buf"])
@@ -256,9 +272,11 @@ def run(c):
     par = c.pick(4, 6)
     jobs = [("VectorStoreTraceBulk.cfg", packed[i::par], "bulk%d" % i) for i in range(par)]
     jobs.append(("VectorStoreTraceBig.cfg", packed_big, "big"))
+    t0 = time.time()
     with concurrent.futures.ThreadPoolExecutor(max_workers=par + 1) as ex:
         res = list(ex.map(lambda j: bulk_validate(c, *j), jobs))
     rejected = sorted(set(n for part in res for n, _ in part))
+    vlib.log("strict validation of %d traces: %d rejected, %.1fs" % (len(items), len(rejected), time.time() - t0))
     # is the whole log of a rejected trace explained by the named deviations of the pinned commit?
     unexplained, ncand = set(), 0
     for cfg, sel_big in (("VectorStoreTraceAsIsBulk.cfg", False), ("VectorStoreTraceAsIsBig.cfg", True)):
@@ -294,6 +312,26 @@ def run(c):
                                  cls=cl, trace_tail=[e["_raw"] for e in nevs[:idx + 1]][-60:]))
     c.cov["traces_validated_against_impl"] += len(items) - len(rejected)
 
+    # ---- 3b. white box (no verdict): the trees behind the store equal the concrete state of the model ----------
+    t0 = time.time()
+    wb_mismatch = []
+    wjobs = []
+    acc = [(n, pack(whitebox[n])) for n in sorted(whitebox) if n not in rejected and not isbig(n)]
+    exp = [(n, pack(whitebox[n])) for n in sorted(whitebox) if n in explained and not isbig(n)]
+    for i in range(par):
+        if acc[i::par]:
+            wjobs.append(("VectorStoreTraceBulk.cfg", acc[i::par], "wb%d" % i))
+    if exp:
+        wjobs.append(("VectorStoreTraceAsIsBulk.cfg", exp, "wbasis"))
+    with concurrent.futures.ThreadPoolExecutor(max_workers=par + 1) as ex:
+        for part in ex.map(lambda j: bulk_validate(c, *j), wjobs):
+            wb_mismatch += part
+    ninspect = sum(1 for n in whitebox for e in whitebox[n] if e["ev"] == "Inspect")
+    for n, i in wb_mismatch[:5]:
+        vlib.log("white-box mismatch (no verdict): program %s, line %s of its white-box trace" % (n, i))
+    vlib.log("white box: %d dumps of %d programs compared, %d programs with a mismatch, %.1fs" %
+             (ninspect, len(acc) + len(exp), len(wb_mismatch), time.time() - t0))
+
     # ---- 4. the as-is model is itself bound: every witness log must be a behaviour of it -------------------
     c.sample(dict(model_program=sel[len(sel) // 2]))
     if traces:
@@ -307,6 +345,7 @@ def run(c):
         asis_witnesses_replayed=len(wsel), programs_run=len(traces), api_calls_validated=calls,
         evaluations=calls, distinct_nontrivial=len(distinct),
         rule="one case = one program (configuration class, sequence of mutating calls with arguments) executed on the real store with Get on every id and Query on every probe after every call; distinct by (class, call sequence); evaluations = API calls whose result TLC checked",
+        whitebox_dumps_compared=ninspect, whitebox_programs_with_mismatch=len(wb_mismatch),
         rejections=len(rejected), rejections_explained_by_named_deviations=len(explained), rejection_signatures=per_class,
         coverage_actions={k: v for k, v in r.coverage.items()} if r.coverage else None,
     ))
